@@ -315,6 +315,63 @@ var c14Derived = []struct {
 	}},
 }
 
+// c14History: a clone is independent of its original whatever was done to the original BEFORE it was cloned (a time
+// range set, an interval asked, a reduction), and two clones of one statement are independent of each other
+func c14History(o *out, q0 *influxql.SelectStatement, text string) {
+	w := func(i int64) (time.Time, time.Time) { return time.Unix(i*3600, 0).UTC(), time.Unix(i*3600+1800, 0).UTC() }
+	flip := func(s *influxql.SelectStatement) {
+		influxql.WalkFunc(s, func(n influxql.Node) {
+			switch x := n.(type) {
+			case *influxql.BooleanLiteral:
+				x.Val = !x.Val
+			case *influxql.StringLiteral:
+				x.Val += "!"
+			case *influxql.IntegerLiteral:
+				x.Val++
+			}
+		})
+	}
+	rp := map[string]interface{}{"op": "clone_history", "text": text}
+	for _, prepare := range []func(s *influxql.SelectStatement) *influxql.SelectStatement{
+		func(s *influxql.SelectStatement) *influxql.SelectStatement { a, b := w(1); _ = s.SetTimeRange(a, b); return s },
+		func(s *influxql.SelectStatement) *influxql.SelectStatement { a, b := w(1); _ = s.SetTimeRange(a, b); a, b = w(2); _ = s.SetTimeRange(a, b); return s },
+		func(s *influxql.SelectStatement) *influxql.SelectStatement { _, _ = s.GroupByInterval(); _ = s.ColumnNames(); _, _ = s.RequiredPrivileges(); return s },
+		func(s *influxql.SelectStatement) *influxql.SelectStatement { return s.Reduce(&influxql.NowValuer{Now: time.Unix(1e9, 0).UTC()}) },
+		func(s *influxql.SelectStatement) *influxql.SelectStatement { return s.Clone().Clone() },
+	} {
+		var q *influxql.SelectStatement
+		if pn := safely(func() { q = prepare(q0.Clone()) }); pn != nil || q == nil {
+			continue
+		}
+		var c1, c2 *influxql.SelectStatement
+		if pn := safely(func() { c1, c2 = q.Clone(), q.Clone() }); pn != nil {
+			continue
+		}
+		before, before2 := selectSexp(q), selectSexp(c2)
+		o.count("clone-history")
+		o.checked()
+		pn := safely(func() {
+			a, b := w(7)
+			_ = c1.SetTimeRange(a, b)
+			c1.RewriteRegexConditions()
+			flip(c1)
+			a, b = w(9)
+			_ = c1.SetTimeRange(a, b)
+		})
+		if pn == nil && (selectSexp(q) != before || selectSexp(c2) != before2) {
+			o.fail("", fmt.Sprintf("%q: after a time range was set on one clone and its literals were changed, the original reads %s (was %s) and a second clone %s", text, q.String(), before, c2.String()), rp)
+			return
+		}
+		// and the other way round: changing the original leaves the clones alone
+		after1 := selectSexp(c1)
+		pn = safely(func() { a, b := w(11); _ = q.SetTimeRange(a, b); flip(q) })
+		if pn == nil && (selectSexp(c1) != after1 || selectSexp(c2) != before2) {
+			o.fail("", fmt.Sprintf("%q: after the original was changed, its clones changed too", text), rp)
+			return
+		}
+	}
+}
+
 func safely(f func()) (pn interface{}) {
 	defer func() { pn = recover() }()
 	f()
@@ -389,6 +446,9 @@ func c14One(o *out, text string, r *rng, tag string) {
 			q2 = st2.(*influxql.SelectStatement)
 			break
 		}
+	}
+	if st3, err := influxql.ParseStatement(text); err == nil {
+		c14History(o, st3.(*influxql.SelectStatement), text)
 	}
 }
 
